@@ -7,7 +7,7 @@
 
    This generalises the static half of Flat.v from field pointers to trees with offset tables. *)
 From SF Require Import Base.Prelude Gen.Generated Unsized.Types Unsized.Parse Unsized.Machine Unsized.Ops.
-From SF Require Import Unsized.Proofs.EncodeParse Unsized.Proofs.Mem Unsized.Proofs.Notify Unsized.Proofs.Flat.
+From SF Require Import Unsized.Proofs.EncodeParse Unsized.Proofs.EnumFacts Unsized.Proofs.Mem Unsized.Proofs.Notify Unsized.Proofs.Flat.
 
 Arguments Z.add : simpl never.
 Arguments Z.sub : simpl never.
@@ -16,14 +16,21 @@ Arguments Z.of_nat : simpl never.
 Arguments Z.pow : simpl never.
 Arguments Z.modulo : simpl never.
 
-(* enum-free shapes *)
+(* the shapes covered by the layout theory.  This used to exclude enums; it now holds of EVERY shape
+   (`plain_all` below) and is kept as a hypothesis name only so that the statements of the theory read as before. *)
 Fixpoint plain (t : ty) : bool :=
   match t with
   | TFixed _ | TList _ _ | TRem => true
   | TUList it _ => plain it
   | TStruct ts => (fix go ts := match ts with [] => true | t :: r => plain t && go r end) ts
-  | TEnum _ _ => false
+  | TEnum _ vs => (fix go vs := match vs with [] => true | (_, t) :: r => plain t && go r end) vs
   end.
+
+Lemma plain_enum_find rw vs d vt : plain (TEnum rw vs) = true -> find_variant d vs = Some vt -> plain vt = true.
+Proof.
+  cbn [plain]. induction vs as [|[d' t'] r IH]; cbn [find_variant]; [discriminate|].
+  intros H Hf. apply andb_true_iff in H as [H1 H2]. destruct (d =? d'); [now injection Hf as <-|now apply IH].
+Qed.
 
 Lemma plain_struct_cons t ts : plain (TStruct (t :: ts)) = plain t && plain (TStruct ts).
 Proof. reflexivity. Qed.
@@ -40,8 +47,22 @@ Fixpoint lay0 (t : ty) (v : val) (b : Z) {struct t} : ptr :=
                   | t :: ts', v :: vs' => lay0 t v b :: go ts' vs' (b + zlen (encode t v))
                   | _, _ => []
                   end) ts vs b)
+  | TEnum rw vars, VEnum d p =>
+      (* StartPointer { start = the discriminant's address; data = the live variant's pointer behind it } *)
+      (fix go vars :=
+         match vars with
+         | [] => PFixed b
+         | (d', vt) :: r => if d =? d' then PEnum b d (lay0 vt p (b + Z.of_nat rw)) else go r
+         end) vars
   | _, _ => PFixed b
   end.
+
+Lemma lay0_enum rw vs d p b vt : find_variant d vs = Some vt ->
+  lay0 (TEnum rw vs) (VEnum d p) b = PEnum b d (lay0 vt p (b + Z.of_nat rw)).
+Proof.
+  cbn [lay0]. induction vs as [|[d' t'] r IH]; cbn [find_variant]; [discriminate|].
+  destruct (d =? d'); [now intros [= <-]|exact IH].
+Qed.
 
 Fixpoint lay0_fields (ts : list ty) (vs : list val) (b : Z) : list ptr :=
   match ts, vs with
@@ -200,7 +221,21 @@ Proof.
         replace (zlen (encode t v) + (zlen (encode (TStruct (t2 :: ts)) (VStruct vs0)) + extra) - zlen (encode t v))
           with (zlen (encode (TStruct (t2 :: ts)) (VStruct vs0)) + extra) by lia.
         rewrite IHts. reflexivity.
-  - cbn in Hpl. discriminate.
+  - destruct v as [| | | |d p]; try (cbn in Hwf; discriminate).
+    destruct (wf_enum_inv _ _ _ _ Hwf) as (Hd & vt & Hf & Hp).
+    pose proof (ty_ok_enum_rw _ _ _ Hok) as Hrw.
+    pose proof (ty_ok_enum_variant _ _ _ _ _ Hok Hf) as Hokv.
+    pose proof (plain_enum_find _ _ _ _ Hpl Hf) as Hplv.
+    enum_ih IH Hf IHv.
+    rewrite get_ptr_enum, (lay0_enum _ _ _ _ _ _ Hf), (encode_enum_some _ _ _ _ _ Hf), zlen_app, zlen_le_bytes.
+    pose proof (zlen_nonneg (encode vt p)).
+    destruct (_ <? Z.of_nat rw) eqn:E; [zb; lia|].
+    rewrite <- app_assoc. rewrite rd_mid'; [|reflexivity|now rewrite zlen_le_bytes]. cbn [obind].
+    rewrite le_decode_le_bytes by lia. rewrite Hf.
+    specialize (IHv last p (pre ++ le_bytes rw d) post extra Hplv Hokv Hp Hex Hlast Hpost).
+    rewrite zlen_app, zlen_le_bytes, <- app_assoc in IHv.
+    replace (Z.of_nat rw + zlen (encode vt p) + extra - Z.of_nat rw) with (zlen (encode vt p) + extra) by lia.
+    rewrite IHv. reflexivity.
 Qed.
 
 (* ---------------------------------------------------------------------------------------------- *)
@@ -231,8 +266,26 @@ Fixpoint Lay (t : ty) (v : val) (b : Z) (p : ptr) {struct t} : Prop :=
          | t :: ts', v :: vs', q :: ps' => Lay t v b q /\ go ts' vs' ps' (b + zlen (encode t v))
          | _, _, _ => False
          end) ts vs ps b
+  | TEnum rw vars, VEnum d p, PEnum st d' q =>
+      st = b /\ d' = d /\
+      (fix go vars :=
+         match vars with
+         | [] => False
+         | (d'', vt) :: r => if d =? d'' then Lay vt p (b + Z.of_nat rw) q else go r
+         end) vars
   | _, _, _ => False
   end.
+
+Lemma Lay_enum rw vs d p b st d' q :
+  Lay (TEnum rw vs) (VEnum d p) b (PEnum st d' q) <->
+  st = b /\ d' = d /\ exists vt, find_variant d vs = Some vt /\ Lay vt p (b + Z.of_nat rw) q.
+Proof.
+  cbn [Lay]. split.
+  - intros (-> & -> & H). repeat split. induction vs as [|[d'' t''] r IH]; cbn [find_variant]; [contradiction|].
+    destruct (d =? d''); [exists t''; split; [reflexivity|exact H]|now apply IH].
+  - intros (-> & -> & vt & Hf & H). repeat split. induction vs as [|[d'' t''] r IH]; cbn [find_variant] in Hf; [discriminate|].
+    destruct (d =? d''); [now injection Hf as ->|now apply IH].
+Qed.
 
 Fixpoint Lay_fields (ts : list ty) (vs : list val) (ps : list ptr) (b : Z) : Prop :=
   match ts, vs, ps with
@@ -261,7 +314,11 @@ Proof.
       rewrite wf_struct_cons in Hwf. apply andb_true_iff in Hwf as [Hv Hvs].
       rewrite plain_struct_cons in Hpl. apply andb_true_iff in Hpl as [Hp1 Hp2].
       cbn [lay0_fields Lay_fields]. split; [apply Ht; assumption|apply IHts; assumption].
-  - cbn in Hpl. discriminate.
+  - destruct v as [| | | |d p]; try (cbn in Hwf; discriminate).
+    destruct (wf_enum_inv _ _ _ _ Hwf) as (Hd & vt & Hf & Hp).
+    enum_ih IH Hf IHv.
+    rewrite (lay0_enum _ _ _ _ _ _ Hf). apply Lay_enum. split; [reflexivity|]. split; [reflexivity|].
+    exists vt. split; [exact Hf|]. apply IHv; [exact (plain_enum_find _ _ _ _ Hpl Hf)|exact Hp].
 Qed.
 
 (* ---------------------------------------------------------------------------------------------- *)
@@ -365,5 +422,18 @@ Proof.
       cbn [check_fields]. rewrite Hc1.
       destruct (IHts vs0 ps (b + zlen (encode t v)) c1 last Hp2 Hok2 Hvs HLr) as (c2 & Hc2 & Hr2); try lia.
       exists c2. split; [exact Hc2|lia].
-  - cbn in Hpl. discriminate.
+  - destruct v as [| | | |d pv]; try (cbn in Hwf; discriminate).
+    destruct p as [| | | | |st d' q]; try (cbn [Lay] in HL; contradiction).
+    apply Lay_enum in HL. destruct HL as (-> & -> & vt' & Hf' & HLq).
+    destruct (wf_enum_inv _ _ _ _ Hwf) as (Hd & vt & Hf & Hp). rewrite Hf in Hf'. injection Hf' as <-.
+    pose proof (ty_ok_enum_rw _ _ _ Hok) as Hrw.
+    pose proof (ty_ok_enum_variant _ _ _ _ _ Hok Hf) as Hokv.
+    pose proof (plain_enum_find _ _ _ _ Hpl Hf) as Hplv.
+    enum_ih IH Hf IHv.
+    rewrite (zlen_encode_enum _ _ _ _ _ Hf) in *. pose proof (zlen_nonneg (encode vt pv)).
+    rewrite check_ptrs_enum. unfold in_range.
+    destruct (cursor <=? b) eqn:E1; [|zb; lia]. destruct (lo <=? b) eqn:E2; [|zb; lia]. destruct (b <? hi) eqn:E3; [|zb; lia].
+    cbn [andb].
+    destruct (IHv last pv (b + Z.of_nat rw) q lo hi b Hplv Hokv Hp HLq) as (c' & Hc & Hr); try lia.
+    exists c'. split; [exact Hc|lia].
 Qed.
